@@ -102,7 +102,46 @@ class EvalMixin(object):
 
     def module_const(self, mod, name, depth=0):
         node = mod.constants[name]
+        if isinstance(node, ast.Dict) and node.keys and \
+                all(isinstance(k, ast.Constant) for k in node.keys) and \
+                not self._module_name_mutated(mod, name):
+            # a table: a dict literal with literal keys that nothing in the
+            # module stores into
+            key = ("table", id(node))
+            if key not in self._fold_cache:
+                self._fold_cache[key] = ("dictlit", tuple(
+                    (const(k.value), self.fold(v, mod, depth + 1))
+                    for k, v in zip(node.keys, node.values)))
+            return self._fold_cache[key]
         return self.fold(node, mod, depth)
+
+    def _module_name_mutated(self, mod, name):
+        for n in ast.walk(mod.tree):
+            if isinstance(n, ast.Subscript) and isinstance(n.ctx, (ast.Store, ast.Del)) and \
+                    isinstance(n.value, ast.Name) and n.value.id == name:
+                return True
+            if isinstance(n, ast.Call) and isinstance(n.func, ast.Attribute) and \
+                    isinstance(n.func.value, ast.Name) and n.func.value.id == name and \
+                    n.func.attr in ("update", "pop", "setdefault", "clear", "popitem",
+                                    "__setitem__", "__delitem__"):
+                return True
+            if isinstance(n, ast.Global) and name in n.names:
+                return True
+        return False
+
+    def _nt_class_fields(self, mod, cname):
+        """field names of `class X(NamedTuple): a: T; b: T = d` (typing style)"""
+        cd = mod.classes.get(cname)
+        if cd is None:
+            return None
+        node = cd["node"]
+        if not any((dotted(b) or "").split(".")[-1] == "NamedTuple" for b in node.bases):
+            return None
+        fields = []
+        for st in node.body:
+            if isinstance(st, ast.AnnAssign) and isinstance(st.target, ast.Name):
+                fields.append((st.target.id, st.value))
+        return fields
 
     def fold(self, node, mod, depth=0):
         """constant folding of module-level expressions (memoised)"""
@@ -151,6 +190,20 @@ class EvalMixin(object):
                 return ("ntclass", nm, tuple(fields))
             except Exception:
                 pass
+        if isinstance(node, ast.Call) and isinstance(node.func, ast.Name):
+            fields = self._nt_class_fields(mod, node.func.id)
+            if fields is not None and len(node.args) <= len(fields) and \
+                    all(kw.arg for kw in node.keywords):
+                vals = {}
+                for i, a in enumerate(node.args):
+                    vals[fields[i][0]] = self.fold(a, mod, depth + 1)
+                for kw in node.keywords:
+                    vals[kw.arg] = self.fold(kw.value, mod, depth + 1)
+                for (f, d) in fields:
+                    if f not in vals and d is not None:
+                        vals[f] = self.fold(d, mod, depth + 1)
+                return ("nt", node.func.id, tuple(
+                    (f, vals.get(f, ("unknown", "nt-missing"))) for (f, _) in fields))
         return ("unknown", "modconst:" + (dotted(node) or type(node).__name__))
 
     def ex_Name(self, node, state, frame):
@@ -216,6 +269,7 @@ class EvalMixin(object):
         fi = FuncInfo(frame.func.module, frame.func.cls, fd, parent=frame.func)
         cid = (fi.qualname, node.lineno)
         self.closures[cid] = (fi, frame)
+        self.__dict__.setdefault("closure_frames", {}).setdefault(cid, []).append(frame)
         frame.has_closure = True
         return [(state, ("closure", cid))]
 
@@ -349,6 +403,17 @@ class EvalMixin(object):
                         results.append((s3, v))
         return results
 
+    def ex_NamedExpr(self, node, state, frame):
+        out = []
+        for (s, v) in self.eval(node.value, state, frame):
+            if isinstance(v, Outcome):
+                out.append((s, v))
+                continue
+            for (s1, o) in self.assign(node.target, v, s, frame, node):
+                out.append((s1, v if not (isinstance(o, Outcome) and o.kind != "normal")
+                            else o))
+        return out
+
     def ex_IfExp(self, node, state, frame):
         out = []
         for (s, b) in self.branch(node.test, state, frame):
@@ -447,7 +512,7 @@ class EvalMixin(object):
             x = t[1]
             if is_const(x):
                 return x[1] is None
-            if x[0] in ("closure", "tuple", "kwdict", "dictlit", "coll",
+            if x[0] in ("closure", "tuple", "kwdict", "dictlit", "coll", "nt",
                         "func", "class", "db", "reg", "comp", "rows", "conn"):
                 return False
             if x[0] == "obj" and not self.maybe_none(x):
